@@ -43,6 +43,7 @@ type Cell struct {
 	Files map[string][]byte
 	Meta  map[string]string // target-specific inputs: go package/module, java package, root packet name
 	Input []string          // driver commands (without END)
+	R     *wire.RProgram    // what the program means (for targets that generate a typed driver)
 
 	Stage    string // "" (ok) | "build" | "run"
 	BuildLog string
